@@ -1,0 +1,16 @@
+//go:build verif
+
+package selector
+
+// Contracts for the deductive verifier in /verif (govc). Comment-only file.
+
+// Python's slice.indices() for step 1 (MinInt / MaxInt encode an omitted bound).
+//@ pure func pyS(a int, n int) int = a == -9223372036854775808 ? 0 : (a < 0 ? max(n + a, 0) : min(a, n))
+//@ pure func pyE(b int, n int) int = b == 9223372036854775807 ? n : (b < 0 ? max(n + b, 0) : min(b, n))
+//@
+//@ func resolveSliceIndices
+//@   requires len(slice) == 2 && 0 <= length
+//@   ensures [C12,C09] inrange: 0 <= start && start <= end && end <= length
+//@   ensures [C12] python: pyS(slice[0], length) < pyE(slice[1], length) ==> start == pyS(slice[0], length) && end == pyE(slice[1], length)
+//@   ensures [C12] empty: pyS(slice[0], length) >= pyE(slice[1], length) ==> start == end
+//@   assigns [C20] nothing
